@@ -12,16 +12,16 @@ CLAIMED = {
          "Trusted: determinism of the case generator; DFT-domain buffers are never compared directly. Known finding F24 (cross-family rounding of cross-radix big normalisation) is listed, not suppressed elsewhere.",
          "DESIGN.md §C10"),
  "C11": ("exploration", "runtime metamorphic monitor: double run from two garbage fills + whole-buffer diff; ASan with every unselected byte poisoned",
-         "Each HAL operation is executed twice on identical inputs but different previous contents of the result buffer (all columns, spare capacity) and scratch; any difference in the "
+         "Each operation of two catalogues (84 HAL operations; 98 poulpy-core / poulpy-ckks operations with keys and operands generated per case) is executed twice on identical inputs but different previous contents of the result buffer (all columns, spare capacity) and scratch; any difference in the "
          "selected output, any change outside it (other columns, limbs beyond size, read-only operands, canary guards) or any access to a poisoned byte is a violation. Oracle-free, so it "
          "also sees stale limbs that every backend leaves equally stale. Held on the executions observed.",
-         "Trusted: the catalogue's notion of 'selected output' (column res_col, limbs 0..size); HAL operations only in this revision.",
+         "Trusted: the catalogues' notion of 'selected output' (HAL: column res_col, limbs 0..size; core: the whole destination object). Not in the core catalogue: compressed key-material encryption, bin-fhe beyond CMux (covered by C13-C15/C20), CKKS plaintext/assign forms (C16).",
          "DESIGN.md §C11"),
  "C12": ("exploration", "runtime monitor: exact-size scratch windows with red zone + two fills; valgrind memcheck and Miri with uninitialised windows",
-         "Every scratch-taking HAL operation is called with a window of exactly the bytes its *_tmp_bytes query returns, placed flush against the end of its allocation: a panic for lack of "
+         "Every scratch-taking operation of the two catalogues (30 HAL, 86 poulpy-core / poulpy-ckks; plus the exact-window calls made by the functional monitors C01-C05, whose scratch-class observations are routed here) is called with a window of exactly the bytes its *_tmp_bytes query returns, placed flush against the end of its allocation: a panic for lack of "
          "space, a guard/red-zone hit (ASan), a result that depends on the fill, or a use of uninitialised scratch reaching the output (memcheck on four backends, Miri on the reference ones) "
          "is a violation. Held on the executions observed.",
-         "Trusted: ASan/memcheck/Miri; HAL (operation, query) pairs in this revision, higher layers are exercised with exact windows inside the scheme-level checks where wired.",
+         "Trusted: ASan/memcheck/Miri. bin-fhe (operation, query) pairs are exercised with exact windows inside C14/C15/C20. Known findings F23/F23t (swapped arguments in one delegate) are reported as KNOWN-FINDING.",
          "DESIGN.md §C12"),
  "C13": ("exploration", "runtime monitor: instrumented walk of the compiled tables (definedness shadow) + bit-sliced execution of the real tables vs Rust word semantics; exhaustive over small supports",
          "Structural clauses (node indices in range, no read of a slot the previous level left undefined, table length a multiple of the state width, last chunk shape, selector range) are decided "
@@ -31,7 +31,7 @@ CLAIMED = {
          "symbolic method, which is outside this family.",
          "Trusted: the restatement of eval_level in c13.rs (its link to the real evaluator is closed by C15 running the same tables homomorphically).",
          "DESIGN.md §C13"),
- "C14": ("exploration", "runtime monitor: index-level model of the look-up table for every rotation index; exact-phase decryption of real blind rotations vs the harness' own modulus switch",
+ "C14": ("exploration", "runtime monitor: index-level model of the look-up table for every rotation index (fresh and re-used tables); direct model of mod_switch_2n for every LWE radix; exact-phase decryption of real blind rotations vs the harness' own modulus switch",
          "Clear path: after set, lookup_table_rotate(k) is called for EVERY k in [0, 2N*ext) (and negative / out-of-domain indices) and every digit of every limb is compared with an index-level "
          "model (negacyclic sign, half-step drift, extension interleaving) on four backends. Blind path: real CGGI executions (standard, block-binary, extended; every message of Z_{2^(p+1)}, p=1..5, "
          "both directions, extension factors 1,2,4,8, crafted boundary LWEs) decrypted with an exact phase and compared on all coefficients with the model table rotated by the harness' own mod-switch. "
@@ -64,7 +64,7 @@ CLAIMED = {
          "distinct interleavings observed is reported; T threads share one Module/keys/ciphertexts and are replayed alone; a reduced workload runs under ThreadSanitizer. Held on the schedules observed.",
          "Trusted: the hook call sites (add-only, no-op without callback); TSan does not see the assembly kernels; Module's unsafe Sync impl is exercised, not proved.",
          "DESIGN.md §C20"),
- "C17": ("exploration", "sanitizers: AddressSanitizer (poisoned neighbours), valgrind memcheck, Miri, canary guards over the HAL catalogue",
+ "C17": ("exploration", "sanitizers: AddressSanitizer (poisoned neighbours), valgrind memcheck, Miri, canary guards over the HAL and core catalogues with aligned and unaligned scratch windows; scratch-carving and deserialise-then-touch histories",
          "The HAL catalogue (83 operations, N from 1, odd limb counts, 1..3 columns, size < capacity, exact scratch windows carved from guarded allocations) runs under ASan on all four backends, "
          "under memcheck on all four (covers the global_asm FFT16 kernels) and under Miri on the reference backends; any report, canary change or bounds panic is a violation. "
          "A clean run is evidence for the calls observed, not memory safety.",
